@@ -67,6 +67,8 @@ class Norm:
                 d = single_def(self.f, r['id'])
                 if d is None:
                     d = reaching_def(self.f, n)
+                if d is None and self.env:
+                    d = self.feasible_def(n)
                 if d is None:
                     break
                 n = self.strip(d)
@@ -74,6 +76,43 @@ class Norm:
             else:
                 break
         return n
+
+    def feasible_def(self, use):
+        """when all but one definition of a local sit in branches that the environment rules out, that one"""
+        from rules.common import all_guards, local_writes
+        f = self.f
+        vid = use['ref']['id']
+        defs = []
+        for x in f.all_nodes():
+            if x['k'] == 'VarDecl' and x.get('id') == vid and kids(x):
+                defs.append((x, kids(x)[0]))
+        for w in local_writes(f, vid):
+            par = f.parent(w)
+            while par is not None and par['k'] in ('ImplicitCastExpr', 'ParenExpr'):
+                par = f.parent(par)
+            if par is not None and par['k'] == 'BinaryOperator' and par.get('op') == '=' and self.strip(kids(par)[0]) is w:
+                defs.append((par, kids(par)[1]))
+            elif par is not None and par['k'] == 'CXXOperatorCallExpr' and par.get('op') == '=' and self.strip(kids(par)[1]) is w:
+                defs.append((par, kids(par)[2]))
+            else:
+                return None
+        feas = []
+        self._depth += 1
+        try:
+            if self._depth > 6:
+                return None
+            for anchor, val in defs:
+                ok = True
+                for c, t in all_guards(f, anchor):
+                    v = self.cval(c)
+                    if v is not None and bool(v) != t:
+                        ok = False
+                        break
+                if ok:
+                    feas.append(val)
+        finally:
+            self._depth -= 1
+        return feas[0] if len(feas) == 1 else None
 
     # ---- transparent calls -------------------------------------------------------------------------------------------
     def expand(self, n):
